@@ -51,6 +51,10 @@ type ref struct {
 	lastUnmap map[uint64]string  // frame -> how its last mapping ended
 	vaddrPids map[uint64]uint32  // vaddr -> set of pids it was handed to
 	step      int
+	// tainted: at some earlier point of this history a merge bit of the buddy
+	// allocator contradicted its free lists. A wrong merge can make the bits
+	// look consistent again, so the mark is kept for the rest of the history.
+	tainted bool
 }
 
 func newRef(c *config) *ref {
@@ -174,7 +178,7 @@ func (r *ref) update(o op, res *result, find func(pageKey) (vm.Page, bool), devO
 			rp.live = false
 		}
 	case opRemap, opDistribute, opMigrate:
-		tag := map[opKind]string{opRemap: "remap-old-frame", opDistribute: "distribute-old-frame", opMigrate: "migrate-old-frame"}[o.K]
+		tag := map[opKind]string{opRemap: "remap-old-frame", opDistribute: "remap-old-frame", opMigrate: "migrate-old-frame"}[o.K]
 		for _, k := range r.touched(o, res) {
 			rp := r.pages[k]
 			if rp == nil {
@@ -273,7 +277,7 @@ func (r *ref) enabled() []op {
 					if c.RemapRanges == "whole" && !(lo == 0 && hi == bf.npages) {
 						continue
 					}
-					if hi-lo <= r.capacity(dev) {
+					if hi-lo <= capOf(dev) {
 						ops = append(ops, op{K: opRemap, Ctx: o.Ctx, Buf: o.Buf, Lo: uint8(lo), Hi: uint8(hi), Dev: uint8(dev)})
 					}
 				}
@@ -403,9 +407,9 @@ func (s *sut) stateFacts(sn *snapshot, r *ref) map[string]fact {
 	out := map[string]fact{}
 	add := func(f fact) { out[f.id()] = f }
 	P := r.P
-	mirror := map[uint64]vm.Page{}
+	mirror := map[uint64][]vm.Page{} // the implementation keys its records by vaddr; a repaired one may key by (pid, vaddr)
 	for i, v := range sn.alloc.MirrorVAddrs {
-		mirror[v] = sn.alloc.MirrorPages[i]
+		mirror[v] = append(mirror[v], sn.alloc.MirrorPages[i])
 	}
 	byFrame := map[uint64]pageKey{}
 	keys := make([]pageKey, 0, len(r.pages))
@@ -455,9 +459,13 @@ func (s *sut) stateFacts(sn *snapshot, r *ref) map[string]fact {
 			add(fact{kind: "frame-outside-recorded-device", keys: []pageKey{k}, obj: obj,
 				detail: fmt.Sprintf("%s -> paddr %#x recorded on device %d, which does not hold that address (it lies on device %d)", obj, p.PAddr, p.DeviceID, sn.devOfFrame(fr))})
 		}
-		if m, ok := mirror[k.v]; !ok || !samePage(m, p) {
+		agree := false
+		for _, m := range mirror[k.v] {
+			agree = agree || samePage(m, p)
+		}
+		if !agree {
 			add(fact{kind: "allocator-record-disagrees", keys: []pageKey{k}, obj: obj, latent: true,
-				detail: fmt.Sprintf("page table has %s -> %+v but the allocator's record for vaddr %#x is %+v (present=%v)", obj, p, k.v, m, ok)})
+				detail: fmt.Sprintf("page table has %s -> %+v but the allocator's record(s) for vaddr %#x are %+v", obj, p, k.v, mirror[k.v])})
 		}
 		if d := sn.devOfFrame(fr); d >= 0 && sn.free[d].has(fr) {
 			add(fact{kind: "live-frame-reusable", keys: []pageKey{k}, obj: fmt.Sprintf("frame%#x", p.PAddr),
@@ -527,6 +535,18 @@ func ownerKeys(r *ref, frame uint64) []pageKey {
 	return nil
 }
 
+// staleMergeBit reports whether any buddy device holds a merge bit that
+// contradicts its free lists (cheap form of the merge-bit-stale fact).
+func (s *sut) staleMergeBit(sn *snapshot, r *ref) bool {
+	stale := false
+	s.buddyFacts(sn, r, func(f fact) {
+		if f.kind == "merge-bit-stale" {
+			stale = true
+		}
+	})
+	return stale
+}
+
 // buddyFacts checks the structural invariants of the buddy allocator: free
 // blocks are aligned to their size, and a device without any allocated block
 // is back to its initial structure (one block on level 0, both bit fields 0).
@@ -543,6 +563,49 @@ func (s *sut) buddyFacts(sn *snapshot, r *ref, add func(fact)) {
 					add(fact{kind: "buddy-free-block-misplaced", obj: fmt.Sprintf("dev%d:l%d:%#x", d.ID, l, a),
 						detail: fmt.Sprintf("device %d level %d (block size %#x) holds block %#x (base %#x)", d.ID, l, size, a, d.InitialAddress)})
 				}
+			}
+		}
+		// merge bits: the bit of a split node is (left child in use) XOR (right
+		// child in use), where "in use" = not on the free list of its level; the
+		// bit of an unsplit node is 0. freeBlock relies on exactly this.
+		bit := func(f []uint64, i uint64) bool { return i/64 < uint64(len(f)) && f[i/64]&(1<<(i%64)) != 0 }
+		onList := func(l int, a uint64) bool {
+			if l >= len(d.BuddyFreeLists) {
+				return false
+			}
+			for _, x := range d.BuddyFreeLists[l] {
+				if x == a {
+					return true
+				}
+			}
+			return false
+		}
+		nodes := uint64(1)<<uint(len(d.BuddyFreeLists)-1) - 1 // internal nodes
+		check := func(idx uint64) {
+			if idx >= nodes {
+				return
+			}
+			l := bits.Len64(idx+1) - 1
+			j := idx + 1 - (1 << uint(l))
+			want := false
+			if bit(d.BuddySplit, idx) {
+				cs := d.StorageSize >> uint(l+1)
+				left := d.InitialAddress + 2*j*cs
+				want = !onList(l+1, left) != !onList(l+1, left+cs)
+			}
+			if bit(d.BuddyMerge, idx) != want {
+				add(fact{kind: "merge-bit-stale", obj: fmt.Sprintf("dev%d:node%d", d.ID, idx), latent: true,
+					detail: fmt.Sprintf("device %d: merge bit of node %d (level %d, position %d, split=%v) is %v but exactly-one-child-in-use is %v; free lists %v",
+						d.ID, idx, l, j, bit(d.BuddySplit, idx), bit(d.BuddyMerge, idx), want, d.BuddyFreeLists)})
+			}
+		}
+		for wi := range d.BuddySplit {
+			w := d.BuddySplit[wi]
+			if wi < len(d.BuddyMerge) {
+				w |= d.BuddyMerge[wi]
+			}
+			for ; w != 0; w &= w - 1 {
+				check(uint64(wi)*64 + uint64(bits.TrailingZeros64(w)))
 			}
 		}
 		if len(d.BuddyBlockAddr) == 0 {
